@@ -103,7 +103,14 @@ def parse_operations(
                 params: List[IRParameter] = list(base_params)  # Start with copies of path-level params
                 for p_param_node_raw in cast(List[Mapping[str, Any]], node_op.get("parameters", [])):
                     resolved_p_param_node = resolve_parameter_node_if_ref(p_param_node_raw, context)
-                    params.append(parse_parameter(resolved_p_param_node, context, operation_id_for_promo=operation_id))
+                    param = parse_parameter(resolved_p_param_node, context, operation_id_for_promo=operation_id)
+                    # An operation-level parameter overrides the path-level one with the same name and location
+                    for i, inherited in enumerate(params):
+                        if (inherited.name, inherited.param_in) == (param.name, param.param_in):
+                            params[i] = param
+                            break
+                    else:
+                        params.append(param)
 
                 # Parse request body
                 rb: IRRequestBody | None = None
